@@ -92,18 +92,27 @@ def fieldsOfSecondsZ (s : Nat) : Fields :=
   let t := s % 86400
   ⟨y, m, d, t / 3600, t % 3600 / 60, t % 60⟩
 
+/-- seconds (from 0000-03-01T00:00:00) that fall in the years 1..9999 — what CPython's
+`utc_to_seconds` / the `datetime` constructor accept: 0001-01-01 is day 306, 9999-12-31 is day 3652364 -/
+def yearOk (s : Int) : Bool := decide (306 * 86400 ≤ s) && decide (s < 3652365 * 86400)
+
 /-- `DateTime.timestamp()` in a zone `off` seconds east of UTC:
-`int(datetime(y,…,tzinfo=utc).replace(tzinfo=None).timestamp())`; invalid fields are `ValueError`. -/
+`int(datetime(y,…,tzinfo=utc).replace(tzinfo=None).timestamp())`; invalid fields are `ValueError`.
+CPython's `local_to_seconds` evaluates `local(t)` (the civil time `off` later) and, probing for a
+fold, `local(u - 24h)`; either raises `ValueError` when it leaves the years 1..9999 — so the call
+fails in the last `off` seconds of 9999 (zones east of UTC) and in the first 24 h of year 1. -/
 def timestamp (off : Int) (v : Nat) : Except Err Int :=
   let f := fields v
-  if f.Valid then .ok ((secondsZ f : Int) - (epochZ * 86400 : Nat) - off) else .error .value
+  if f.Valid then
+    let t : Int := secondsZ f
+    if yearOk (t + off) && yearOk (t - 86400) then .ok (t - (epochZ * 86400 : Nat) - off) else .error .value
+  else .error .value
 
 /-- `DateTime.fromtimestamp(t)` for an integer `t` in a zone `off` seconds east of UTC;
-a local year outside 1..9999 is `ValueError`. -/
+a local year outside 1..9999 is `ValueError`, also for the fold probe 24 h earlier. -/
 def fromTimestamp (off : Int) (t : Int) : Except Err Nat :=
   let s : Int := t + off + (epochZ * 86400 : Nat)
-  -- 0001-01-01T00:00:00 is z = 306 days; 9999-12-31T23:59:59 is the last second of z = 3652364
-  if 306 * 86400 ≤ s ∧ s < 3652365 * 86400 then .ok (make (fieldsOfSecondsZ s.toNat)) else .error .value
+  if yearOk s && yearOk (s - 86400) then .ok (make (fieldsOfSecondsZ s.toNat)) else .error .value
 
 /-- `DateTime.never()` / `DateTime.future()` -/
 def never : Nat := 0
